@@ -852,3 +852,26 @@ def run_I5(chk, prefixes, rule="I5", floor=2):
                 chk.bad(rule, (f, node), node, f"{f.short}(): {msg}", facts)
     chk.extra["zip_sites_with_parallel_families"] = n
     return n
+
+
+def run_I6(chk, prefixes, rule="I6", floor=25):
+    """selection consistency of parallel sequences (engine E3d `seqsel`)"""
+    from ..core.seqsel import SelOrder
+    prog = chk.prog
+    chk.rule(rule, "parallel per-block / per-sector sequences (struct.t, struct.D, slices; leg.t, leg.D) zipped together were narrowed by the same selection", floor=floor)
+    n = 0
+    for f in prog.all_funcs():
+        if not f.module.name.startswith(tuple(prefixes)) or "torch" in f.module.name:
+            continue
+        if "zip(" not in A.text(f.node):
+            continue
+        so = SelOrder(f.node)
+        so.check()
+        for node, msg, facts in so.findings:
+            n += 1
+            if msg is None:
+                chk.ok(rule, (f, node), node, facts, sample=n <= 4)
+            else:
+                chk.bad(rule, (f, node), node, f"{f.short}(): {msg}", facts)
+    chk.extra["zip_sites_with_selectable_families"] = n
+    return n
